@@ -561,6 +561,10 @@ def gen_c05(seed, tier):
         sps.append(g.add_sp(i, tenant=tenant, allow_unsolicited=g.rl.chance(0.45), dest_regex=rx,
                             wrs=g.rl.chance(0.5), acs2=g.rl.chance(0.3), enc_keys=[6 + 2 * i],
                             no_redirect_acs=g.rl.chance(0.35), acs_artifact=g.rl.chance(0.4)))
+        if g.rl.chance(0.1):
+            # endpoints in the documented (location, binding, index) form.  (In this code base such an SP cannot
+            # complete a login at all - DESIGN.md section 15 - so on the unchanged tree these runs judge nothing.)
+            sps[-1]["acs_index"] = g.rl.pick([[0, 1, 2], [1, 2, 3]])
     g.draw_skews(choices=(0, 0, 1, -1))
     clean = (seed % 4 == 0)
     g.knobs = {"class": "clean" if clean else "faulty"}
@@ -1101,12 +1105,18 @@ def gen_c10(seed, tier):
             else:
                 target = sp_now_at_start - 86400 - slack + delta
             J = target + 0.5 - g.now_of(idp["name"], g.t)
+            rkw = {}
+            if not sign and r.chance(0.3):
+                # ... and the sender writes its IssueInstant with a UTC offset (same instant, other spelling)
+                rkw = {"mut": {"k": "xml", "where": "restyle-instant", "target": "response",
+                               "style": r.pick(["off+14:00", "off+05:30", "off+01:00"] if fk == "stale" else
+                                               ["off-12:00", "off-08:00", "off-01:00"])}, "sub": g.sub()}
             if J >= 0 and r.chance(0.5):
                 g.t += J
-                g.ev("req", f=f)
+                g.ev("req", f=f, **rkw)
             else:
                 g.ev("jump", node=idp["name"], delta=J)
-                g.ev("req", f=f)
+                g.ev("req", f=f, **rkw)
                 g.ev("jump", node=idp["name"], delta=-J)
         elif fk == "other-idp" and len(idps) > 1:
             o = r.pick([x for x in idps if x is not idp])
